@@ -160,11 +160,13 @@ PROPS = {
                  covers=["unknown-applied", "repair-rewrites", "done"]),
             dict(run=B + "VerifC09Uncertain", name="C09_overmark", quick=dict(scenario=0, faultpos=2, keys=1, val9=0, foreign=1, repairfaults=0, native_tick_ms=1300),
                  thorough=dict(scenario=2, faultpos=2, keys=1, val9=0, foreign=1, repairfaults=0, native_tick_ms=1300), covers=["unknown-applied", "unknown-lost", "done"]),
+            dict(run=B + "VerifC09Uncertain", name="C09_inductive", quick=dict(arbitrary=1, maxversions=2, keys=1, val9=0, foreign=0, repairfaults=0, native_tick_ms=1300),
+                 thorough=dict(arbitrary=1, maxversions=2, keys=1, val9=0, foreign=0, repairfaults=1, native_tick_ms=1300), covers=["unknown-applied", "unknown-lost", "repair-rewrites", "index-absent-over-deletion-mark", "done"]),
             dict(run="pkg/backend/retry.VerifC09Queue", quick=dict(steps=6), thorough=dict(steps=10), covers=["three-pending", "popped", "done"]),
             dict(run=B + "VerifC09CompactRace", name="C09_compactrace", quick=dict(ops=1, keys=1, val9=0, preempt=1), thorough=dict(ops=1, keys=1, val9=0, preempt=2),
                  covers=["unknown-outcome", "compaction-capped", "done"]),
         ],
-        bounds=dict(quick="1-write history; one create/update/delete (symbolic expectation) whose commit is answered 'unknown' in both variants; 1 further symbolic write to the same key; optional Compact(0) while unresolved; the repair loop with symbolic elapsed time; separately a fault of any kind on the repair write itself; the same on a key that was created and deleted (deletion mark present), the fault on the request's first or second commit (a create over a deletion mark commits twice); a compaction request racing the writer and the sequencer while the outcome is unknown (<= 1 scheduling deviation); the queue of unresolved writes against a reference FIFO for every sequence of 6 pushes/pops (several writes unresolved at once)",
+        bounds=dict(quick="1-write history; one create/update/delete (symbolic expectation) whose commit is answered 'unknown' in both variants; 1 further symbolic write to the same key; optional Compact(0) while unresolved; the repair loop with symbolic elapsed time; separately a fault of any kind on the repair write itself; the same on a key that was created and deleted (deletion mark present), the fault on the request's first or second commit (a create over a deletion mark commits twice); a compaction request racing the writer and the sequencer while the outcome is unknown (<= 1 scheduling deviation); the queue of unresolved writes against a reference FIFO for every sequence of 6 pushes/pops (several writes unresolved at once); the whole unknown-outcome / repair cycle starting from an arbitrary store state of the key that satisfies the representation invariant (0..2 versions with symbolic revisions, deletion marks, every form of the index record, any compaction record), the invariant re-established afterwards",
                     thorough="2 further writes after the unknown outcome; repair fault together with a further write; the unknown outcome on a re-created key; the compaction race with 2 deviations"),
         outside="a write that lands after its commit call returned 'unknown'; TiKV's error classification (adapter, C11)",
     ),
